@@ -85,6 +85,26 @@ def startswith (s p : List Char) (lo : Option Int) : Bool :=
     | some i => if i < 0 then (i + s.length).toNat else i.toNat
   decide (lo' + p.length ≤ s.length) && ((s.drop lo').take p.length == p)
 
+/-- the iterations of `while loc < B and instring[loc] (not) in cs: loc += 1` (`neg` = `not in`), at most `fuel` of
+    them; `none` = IndexError raised by `instring[loc]`.  CPython order: `loc < B` first, the index expression only
+    when it holds.  With `fuel = 0` the current `loc` is returned: `scanWhile` passes `fuel = (B - loc).toNat`, every
+    iteration needs `loc < B` and adds 1 to `loc`, so `fuel = 0` is reached exactly when `loc ≥ B`, where the loop
+    condition is false (lemma `scanGo_zero_exact` in Lemmas/LoopSrc.lean: the fuel never cuts a running loop). -/
+def scanGo (s cs : List Char) (neg : Bool) (B : Int) : Nat → Int → Option Int
+  | 0, loc => some loc
+  | k+1, loc =>
+      if loc < B then
+        match item s loc with
+        | none => none
+        | some x => if (inChars x cs != neg) then scanGo s cs neg B k (loc + 1) else some loc
+      else some loc
+
+/-- `while loc < B and instring[loc] in cs: loc += 1` (`neg = false`) /
+    `while loc < B and instring[loc] not in cs: loc += 1` (`neg = true`): the value of `loc` after the loop,
+    `none` = IndexError.  Validated against the Python loop itself (`pystr scan`), negative `loc` / `B` included. -/
+def scanWhile (s cs : List Char) (neg : Bool) (loc B : Int) : Option Int :=
+  scanGo s cs neg B (B - loc).toNat loc
+
 /-- what a leaf `parseImpl` does: `return loc, tokens` | `raise ParseException(instring, loc, …)` | an IndexError
     raised by an index expression -/
 inductive Ret where
